@@ -58,7 +58,7 @@ pub fn d_pool() -> Vec<String> {
 }
 
 pub fn db_kind_pool() -> Vec<u16> {
-    vec![1, 0, 3, 5, 7, 1059, 9999, 10000, 10002, 19999, 20000, 20001, 29999, 30000, 30023, 39999, 40000]
+    vec![1, 0, 3, 5, 7, 62, 1059, 9999, 10000, 10002, 19999, 20000, 20001, 29999, 30000, 30023, 39999, 40000]
 }
 
 pub fn time_pool() -> BoxedStrategy<u64> {
@@ -161,7 +161,7 @@ pub fn db_tag_n(n: usize, names: usize) -> BoxedStrategy<Vec<String>> {
         // single-letter tags with 1..3 strings after the name
         12 => (prop::sample::select(name_pool), prop::collection::vec(val.clone(), 1..3))
             .prop_map(|(n, mut v)| { v.insert(0, n.to_string()); v }),
-        2 => (prop::sample::select(vec!["E", "1", "client", "dd", ""]), prop::collection::vec(val, 0..3))
+        2 => (prop::sample::select(vec!["E", "1", "client", "dd", "", "delegation", "description", "da", "proxy", "e2", "K", "A", "-", "9"]), prop::collection::vec(val, 0..3))
             .prop_map(|(n, mut v)| { v.insert(0, n.to_string()); v }),
         1 => Just(Vec::<String>::new()),
         1 => prop::sample::select(vec!["e", "d", "t"]).prop_map(|n| vec![n.to_string()]),
@@ -213,7 +213,7 @@ pub fn gen_event(cfg: EvCfg) -> BoxedStrategy<GenEvent> {
         .boxed()
     } else {
         prop_oneof![
-            w[0] => prop::sample::select(vec![1u16, 1, 1, 7, 7, 1059, 9999, 40000]),
+            w[0] => prop::sample::select(vec![1u16, 1, 1, 7, 7, 1059, 9999, 40000, 62]),
             w[1] => prop::sample::select(vec![0u16, 3, 10000, 10002, 19999]),
             w[2] => prop::sample::select(vec![30000u16, 30023, 39999]),
             w[3] => prop::sample::select(vec![20000u16, 20001, 29999]),
@@ -241,13 +241,15 @@ pub fn gen_event(cfg: EvCfg) -> BoxedStrategy<GenEvent> {
         content_len_strategy(),
         idc,
         prop_oneof![60 => Just(0u16), 1 => 250u16..400],
+        prop_oneof![2 => Just(0u8), 1 => any::<u8>()],
     )
-        .prop_map(|(author, kind, created_at, mut tags, d, content_len, idc, many)| {
-            // parameterised kinds normally carry a d tag (first of the generated tags, i.e. after a possible
-            // long run of p tags), from the colliding pool
+        .prop_map(|(author, kind, created_at, mut tags, d, content_len, idc, many, dpos)| {
+            // parameterised kinds normally carry a d tag from the colliding pool: mostly the first of the generated
+            // tags (i.e. after a possible long run of p tags), sometimes behind other tags
             if (30000..40000).contains(&kind) {
                 if let Some(d) = d {
-                    tags.insert(0, vec!["d".to_string(), d]);
+                    let at = dpos as usize % (tags.len() + 1);
+                    tags.insert(at, vec!["d".to_string(), d]);
                 }
             }
             GenEvent {
@@ -280,6 +282,8 @@ pub enum DelTarget {
     EOwn(u16),
     /// the i-th earlier event written by somebody else (skipped if there is none)
     EForeign(u16),
+    /// NIP-09 `k` tag: the kind of the i-th earlier event (None: a fixed kind or garbage, by the second field)
+    K(Option<u16>, u8),
 }
 
 #[derive(Clone, Debug, Serialize, Deserialize)]
@@ -366,6 +370,7 @@ pub fn del_target() -> BoxedStrategy<DelTarget> {
         1 => Just(DelTarget::Other(vec!["p".into(), "x".into()])),
         1 => Just(DelTarget::Other(vec![])),
         1 => Just(DelTarget::Other(vec!["e".into()])),
+        2 => (prop::option::weighted(0.6, any::<u16>()), any::<u8>()).prop_map(|(i, x)| DelTarget::K(i, x)),
     ]
     .boxed()
 }
@@ -395,6 +400,13 @@ pub fn op_strategy(w: OpWeights, cfg: EvCfg) -> BoxedStrategy<Op> {
             time_pool(),
             prop_oneof![
                 30 => prop::collection::vec(del_target(), 1..5),
+                // a kind declaration next to somebody else's event (of that or another kind) and one of the requester's own
+                3 => (prop::option::weighted(0.5, any::<u16>()), any::<u8>(), any::<u16>(), any::<u16>(), 0u8..3)
+                    .prop_map(|(ki, kx, f, o, shape)| match shape {
+                        0 => vec![DelTarget::K(ki, kx), DelTarget::EForeign(f)],
+                        1 => vec![DelTarget::EOwn(o), DelTarget::K(ki, kx), DelTarget::EForeign(f)],
+                        _ => vec![DelTarget::EForeign(f), DelTarget::K(ki, kx)],
+                    }),
                 // long requests (a relay accepts what fits its message size): 60..100 targets
                 1 => prop::collection::vec(del_target(), 60..100),
                 // long requests whose first 60..100 targets are harmless for the requester (own events, absent ids)
@@ -824,6 +836,18 @@ impl World {
                 }
                 DelTarget::AMalformed(s) => tags.push(vec!["a".to_string(), s.clone()]),
                 DelTarget::Other(v) => tags.push(v.clone()),
+                DelTarget::K(i, x) => {
+                    let v = match i {
+                        Some(i) if n > 0 => self.events[idx16(*i, n)].kind.to_string(),
+                        _ => ["1", "30023", "5", "62", "0", "x", "", "65536", "1059"][*x as usize % 9].to_string(),
+                    };
+                    // in front of or behind the targets named so far
+                    if x & 0x80 != 0 {
+                        tags.insert(0, vec!["k".to_string(), v]);
+                    } else {
+                        tags.push(vec!["k".to_string(), v]);
+                    }
+                }
                 DelTarget::EOwn(i) | DelTarget::EForeign(i) => {
                     let me = author(author_i);
                     let own = matches!(t, DelTarget::EOwn(_));
@@ -876,9 +900,12 @@ impl World {
                 }
                 let base = self.events[idx16(*of, n)].clone();
                 let mut tags = base.tags.clone();
-                let pos = tags.iter().position(|t| t.len() >= 2 && t[0] == "d")?;
+                // how >= 128: the neighbour differs in the value of the first valued tag of any name (p of a gift wrap,
+                // e, t, ...: index keys pad and cut values); otherwise in its d value
+                let any_tag = *how >= 128;
+                let pos = if any_tag { tags.iter().position(|t| t.len() >= 2 && t[0].len() == 1)? } else { tags.iter().position(|t| t.len() >= 2 && t[0] == "d")? };
                 let d = tags[pos][1].clone();
-                if how % 9 >= 7 {
+                if !any_tag && how % 9 >= 7 {
                     // a second d tag: the event lives at another address but also carries the base event's identifier
                     // as an additional d tag (tag filters see every d tag, the address only the first)
                     if how % 9 == 7 {
